@@ -3,6 +3,9 @@
 package c06
 
 import (
+	"bytes"
+	"errors"
+	"sync/atomic"
 	"fmt"
 	"log"
 	"os"
@@ -133,7 +136,17 @@ func mkMsg(kind string, tag string) string {
 }
 
 // coreKinds are the compositions a case is run over.
-var coreKinds = []string{"json", "nop", "level-above-fatal", "sampler-drops-all", "tee-with-disabled-branch", "lazy", "increase-level", "buffered-sink", "observer+json"}
+var coreKinds = []string{"json", "nop", "level-above-fatal", "sampler-drops-all", "tee-with-disabled-branch", "lazy", "increase-level", "buffered-sink", "observer+json",
+	// the write itself fails (closed file, full disk, a hook returning an error): the terminal action still runs
+	"failing-sink", "tee(failing-sink,json)", "hooks-returning-error",
+	// another goroutine keeps writing to the same locked sink while the terminal entry is logged
+	"locked-sink-contended"}
+
+// failWS fails every call.
+type failWS struct{}
+
+func (failWS) Write(p []byte) (int, error) { return 0, errors.New("c06 sink failure") }
+func (failWS) Sync() error                 { return errors.New("c06 sync failure") }
 
 type built struct {
 	core     zapcore.Core
@@ -141,6 +154,10 @@ type built struct {
 	logs     *observer.ObservedLogs
 	enabled  bool // the entry reaches at least one core
 	buffered *zapcore.BufferedWriteSyncer
+	// contended: a background goroutine writes to the same locked sink; only "some Sync follows the
+	// final entry's write" can be required then
+	contended bool
+	stop      func()
 }
 
 var cfg = zapcore.EncoderConfig{MessageKey: "msg", LevelKey: "level", EncodeLevel: zapcore.LowercaseLevelEncoder}
@@ -170,6 +187,24 @@ func buildCore(kind string, ws func(*rec.Sink) zapcore.WriteSyncer) built {
 			panic(err)
 		}
 		return built{core: c, sinks: []*rec.Sink{s}, enabled: true}
+	case "failing-sink":
+		return built{core: zapcore.NewCore(zapcore.NewJSONEncoder(cfg), failWS{}, zapcore.DebugLevel), enabled: true}
+	case "tee(failing-sink,json)":
+		return built{core: zapcore.NewTee(zapcore.NewCore(zapcore.NewJSONEncoder(cfg), failWS{}, zapcore.DebugLevel), io(s, zapcore.DebugLevel)), sinks: []*rec.Sink{s}, enabled: true}
+	case "hooks-returning-error":
+		return built{core: zapcore.RegisterHooks(io(s, zapcore.DebugLevel), func(zapcore.Entry) error { return errors.New("c06 hook error") }), sinks: []*rec.Sink{s}, enabled: true}
+	case "locked-sink-contended":
+		locked := zapcore.Lock(ws(s))
+		var stopFlag atomic.Bool
+		done := make(chan struct{})
+		go func() {
+			defer close(done)
+			for !stopFlag.Load() {
+				_, _ = locked.Write([]byte("background\n"))
+			}
+		}()
+		return built{core: zapcore.NewCore(zapcore.NewJSONEncoder(cfg), locked, zapcore.DebugLevel), sinks: []*rec.Sink{s}, enabled: true, contended: true,
+			stop: func() { stopFlag.Store(true); <-done }}
 	case "buffered-sink":
 		b := &zapcore.BufferedWriteSyncer{WS: ws(s), Size: 4096, FlushInterval: time.Hour}
 		return built{core: zapcore.NewCore(zapcore.NewJSONEncoder(cfg), b, zapcore.DebugLevel), sinks: []*rec.Sink{s}, enabled: true, buffered: b}
@@ -179,15 +214,41 @@ func buildCore(kind string, ws func(*rec.Sink) zapcore.WriteSyncer) built {
 	}
 }
 
+// coreInfo says, without building anything, whether a composition delivers the entry at all,
+// whether a recording sink is expected to hold it, and whether a background writer is active.
+func coreInfo(kind string) (enabled, hasSink, contended bool) {
+	switch kind {
+	case "nop", "level-above-fatal", "sampler-drops-all":
+		return false, false, false
+	case "failing-sink":
+		return true, false, false
+	case "locked-sink-contended":
+		return true, true, true
+	}
+	return true, true, false
+}
+
 // snapshot is what the sinks looked like at one instant.
 type snapshot struct {
 	events []string
 	lines  []string
 	obs    int
+	evs    [][]rec.Event // contended sinks only
 }
 
 func snap(b built) snapshot {
 	var sn snapshot
+	if b.contended {
+		// stop the background writer first so that the event log is final (the hook runs after the
+		// entry's write and sync returned)
+		if b.stop != nil {
+			b.stop()
+		}
+		for _, s := range b.sinks {
+			sn.evs = append(sn.evs, s.EventsCopy())
+		}
+		return sn
+	}
 	for _, s := range b.sinks {
 		sn.events = append(sn.events, s.Snapshot())
 		sn.lines = append(sn.lines, string(s.All()))
@@ -200,6 +261,29 @@ func snap(b built) snapshot {
 
 // written checks that, in this snapshot, every accepting destination has the entry and IO sinks were synced after it.
 func (sn snapshot) written(b built, msg string) string {
+	if b.contended {
+		for _, evs := range sn.evs {
+			at := -1
+			for k, e := range evs {
+				if e.Kind == 'W' && bytes.Contains(e.Bytes, []byte(strings.TrimSpace(msg))) && bytes.Contains(e.Bytes, []byte(`"level"`)) {
+					at = k
+				}
+			}
+			if at < 0 {
+				return "when control was lost, the contended sink had not received the entry"
+			}
+			synced := false
+			for _, e := range evs[at:] {
+				if e.Kind == 'S' {
+					synced = true
+				}
+			}
+			if !synced {
+				return "when control was lost, no Sync had reached the sink after the final entry's write (another goroutine was writing to the same locked sink): the message can be left in a buffer"
+			}
+		}
+		return ""
+	}
 	for i := range b.sinks {
 		if !strings.Contains(sn.lines[i], strings.TrimSpace(msg)) || !strings.Contains(sn.events[i], "W") {
 			return fmt.Sprintf("when control was lost, an accepting IO core had not received the entry (sink events %q)", sn.events[i])
@@ -435,6 +519,9 @@ func inProcess(r *ev.Run) {
 		if b.buffered != nil {
 			_ = b.buffered.Stop()
 		}
+		if b.stop != nil {
+			b.stop()
+		}
 	}
 }
 
@@ -539,7 +626,7 @@ func outOfProcess(r *ev.Run) {
 			r.Inconclusive(id + ": child hit the watchdog")
 			continue
 		}
-		enabled := buildCore(c.core, func(s *rec.Sink) zapcore.WriteSyncer { return s }).enabled
+		enabled, hasSink, contended := coreInfo(c.core)
 		if serr == nil {
 			class := "not-terminated"
 			if fes[c.fe].name == "zapgrpc.Fatalln" && !enabled {
@@ -552,13 +639,15 @@ func outOfProcess(r *ev.Run) {
 			bad("wrong-exit-status", "the process ended with status %d (signaled=%v), want exit status 1", oc.ExitCode, oc.Signaled)
 			continue
 		}
-		if enabled {
+		if enabled && hasSink {
 			wantMsg := mkMsg(c.msg, "fatal-final-message")
 			if !strings.HasSuffix(string(data), "\n") || !strings.Contains(string(data), wantMsg) || !strings.Contains(string(data), `"level":"fatal"`) {
 				bad("lost-before-termination", "the file lacks the complete final line: %q", clipS(string(data)))
 				continue
 			}
-			if !strings.HasSuffix(strings.TrimSpace(string(side)), "S") || !strings.Contains(string(side), "W") {
+			if contended {
+				// the background writer keeps appending events until the process exits: only the data file is judged here
+			} else if !strings.HasSuffix(strings.TrimSpace(string(side)), "S") || !strings.Contains(string(side), "W") {
 				bad("lost-before-termination", "the sink was not synced after the final write before exit (events %q)", strings.ReplaceAll(string(side), "\n", " "))
 			}
 			r.Count("written_and_synced_checks", 1)
